@@ -1169,6 +1169,10 @@ func backslashScanReachesZero(c *Ctx, r *Report, rule string, fnames []string, c
 			r.check(lo == 0, rule, fmt.Sprintf("%s:backslash-scan#%d", fname, n), c.pos(iff.Pos()), "reaches index 0", "the backward scan over backslashes stops at index %d: a backslash at the very start of the name is not counted, the escape parity of the first dot flips, and %s", lo, consequence)
 		})
 		if n == 0 {
+			if found, problems := forwardRunCounter(c, fn); found {
+				r.check(len(problems) == 0, rule, fname+":run-counter", c.pos(fn.Pos()), "forward scan: run counter +1 on a backslash, 0 on every other octet", "the counter of backslashes in front of the current octet is wrong on some way round the loop (%s): the escape parity of a dot is judged with a stale count, and %s", strings.Join(problems, "; "), consequence)
+				continue
+			}
 			r.undecided(rule, fname, c.pos(fn.Pos()), "no backward scan over backslashes found")
 		}
 	}
